@@ -57,6 +57,8 @@ def graph_orientation(A):
                 if not any(x.id == a.id for x in names):
                     continue
                 it = src(st.iter)
+                if isinstance(st.iter, ast.Name) and st.iter.id in pair_lists and isinstance(st.target, ast.Tuple) and _depth > 0:
+                    continue   # resolving an element of the pair list: only its own generators count
                 if isinstance(st.iter, ast.Name) and st.iter.id in pair_lists and isinstance(st.target, ast.Tuple):
                     # iterating a list of pairs built before: the kind of the element at the same position
                     pos = next((i for i, e in enumerate(st.target.elts) if isinstance(e, ast.Name) and e.id == a.id), None)
